@@ -445,6 +445,33 @@ pub fn run_c18(run: &Run) {
             run.add_counts(st.stores, st.queries, st.queries, st.stores);
         }
     }
+    // once more with a logger that accepts TRACE records
+    crate::report::trace_logging(true);
+    for (v, len, mixed) in [(3usize, 1usize, true), (3, 2, false)] {
+        let nn = 3u64.pow(v as u32) - 1;
+        let total = if mixed { (nn * 3).pow(len as u32) } else { 3 * nn.pow(len as u32) };
+        let res = run.par_family(
+            &format!("V={} add sequences of length {} with trace logging switched on", v, len),
+            total,
+            St::default,
+            |st, k| {
+                let seq = decode(v, len, mixed, k);
+                let mut seen = std::collections::BTreeSet::new();
+                for (kind, msg) in case(v, &seq, st) {
+                    if seen.insert(kind.clone()) {
+                        let mut c = seq_json(v, &seq);
+                        c["trace_logging"] = json!(true);
+                        run.violation(&format!("trace-logging:{}", kind), format!("{} after adds {:?} (a logger accepting TRACE records is installed)", msg, seq), c);
+                    }
+                }
+            },
+            &|k| seq_json(v, &decode(v, len, mixed, k)),
+        );
+        for st in res {
+            run.add_counts(st.stores, st.queries, st.queries, st.nontrivial);
+        }
+    }
+    crate::report::trace_logging(false);
     run.extra("states_are", json!("stores reached by an add sequence"));
     run.extra("transitions_are", json!("queries (conclusions / closure) judged against brute force, plus pairwise NoGood operations"));
 }
